@@ -162,7 +162,9 @@ def run_identities(ctx, spec):
         if r[0] > 1e-4:
             ctx.violation('identity:steam', 'single-potential identity residual %.3g at t=%r p=%r' % (r[0], t, p), case)
     # inverse pair
-    for t in lin(0.01, 374.0, int(500 / spec['f'])) + [0.01, 374.15, 100.0, 350.0]:
+    # (the second list: neighbouring temperatures near the triple point, whose saturation pressures differ by less than a
+    #  pascal - an answer remembered for one pressure must not be handed out for its neighbour)
+    for t in lin(0.01, 374.0, int(500 / spec['f'])) + [0.01, 374.15, 100.0, 350.0] + lin(0.0105, 0.6, 120) + lin(99.9990, 100.0, 12):
         case = {'clause': 'tsat(sat(t))', 't': t}
         with ctx.guard(case) as g:
             p = T.sat(t)
